@@ -26,7 +26,7 @@ OBJ_EO = ["accuracy_score", "balanced_accuracy_score"]
 
 
 # generated files the Pmf model is built from -> sha256 as lifted from the pinned tree
-PINNED_GENERATED = {"ThresholderSrc.lean": "60c4e7a52add3ca98ac97b54ab0f52a748037edc7e9dd85958bc1203e46d2c3e",
+PINNED_GENERATED = {"ThresholderSrc.lean": "e8eca555041924fd761db20bc5b1ecc2f78490203f85fbd3c516d3929ba7ff4c",
                     "EgPredict.lean": "57a12efafd6e700b2fefc65687940694a7797563baf741f1def2bcdd7c40cace"}
 _GEN = {}
 
@@ -176,14 +176,18 @@ class CHECK(Check):
                   "the pairing lifted from predict's source on every run (Generated/EgPredict.lean; id-aligned since the F7 "
                   "repair 74c05e5), plus the partial form for positional pairing under aligned weights_ and a proved "
                   "counter-witness for the old positional code. Partial by nature: the uniformity of numpy's generator is "
-                  "trusted; frequencies are checked statistically.")
+                  "trusted; frequencies are checked statistically. The thresholder clauses are proved for the expressions LIFTED "
+                  "from ThresholdOperation.__call__ / _pmf_predict / predict (Generated/ThresholderSrc.lean), their hypotheses are "
+                  "DERIVED for every model ThresholdOptimizer.fit produces (fitted_rules_valid_simple / _EO, "
+                  "fitted_pmf_is_distribution), and predict is row-wise in the draws for any draw sequence (predict_rowwise, "
+                  "predict_row_independent, predict_draw_count).")
     design_ref = "DESIGN.md section 4, C10"
     quick_cases = 70
     thorough_cases = 600
     quick_budget_s = 120
     thorough_budget_s = 1300
     workers_thorough = 4
-    rule = ("fitted models: ThresholdOptimizer (7 constraints x admissible objectives, flip on/off, grid 4..1000, prefit "
+    rule = ("fitted models: ThresholdOptimizer (7 constraints x admissible objectives, flip on/off, grid 1..1000 (small grids put the optimum on a hull vertex of every group; equalized odds then randomises through p_ignore alone), prefit "
             "pass-through scorer on dyadic scores or LogisticRegression/predict_proba, 2-3 groups with both labels), "
             "ExponentiatedGradient classification (DP/EO/TPRP/FPRP/ERP, tree or logistic learner, LP step on/off, 12-32 rows) "
             "and regression (BoundedGroupLoss with Square/AbsoluteLoss, tree or linear regressor, LP step on/off); query "
@@ -238,7 +242,11 @@ class CHECK(Check):
             query.append(["zz" if isinstance(names[0], str) else 99, "1/2"])
         return {"kind": "to", "groups": [r[0] for r in rows], "y": [r[1] for r in rows], "scores": [str(r[2]) for r in rows],
                 "constraints": cons, "objective": obj, "flip": rng.random() < 0.5,
-                "grid": rng.choice([4, 10, 16, 100, 1000]), "estimator": est, "query": query,
+                # small grids on purpose (more often for equalized odds): the optimum then sits on a hull VERTEX of every
+                # group (p0 in {0,1}), and under equalized odds p_ignore in (0,1) still makes the pmf fractional
+                "grid": rng.choice([1, 1, 2, 2, 4, 10, 16, 100, 1000] if cons == "equalized_odds"
+                                   else [1, 2, 4, 10, 16, 100, 1000]),
+                "estimator": est, "query": query,
                 "seed0": rng.randrange(10 ** 6)}
 
     def _gen_eg(self, rng, regression):
@@ -744,6 +752,9 @@ class CHECK(Check):
                     tags.append("flipped_operation")
                 if any(0 < float(r["p0"]) < 1 for r in rules.values()):
                     tags.append("interpolating_rule")
+                elif any("p_ignore" in r and 0 < float(r["p_ignore"]) < 1 for r in rules.values()):
+                    tags.append("every_p0_in_{0,1}_but_0<p_ignore<1" + ("(randomised_on_query)" if any(
+                        0 < float(v) < 1 for v in o["pmf1"]) else ""))
                 if any(str(g) not in rules for g, _ in case["query"]):
                     tags.append("unseen_group_in_query")
                 p1 = [float(v) for v in o["pmf1"]]
